@@ -322,6 +322,6 @@ ASSUMPTIONS = ["SIGINT is delivered from handler registration onward (before tha
 
 
 def main(tier):
-    n = 60 if tier == "quick" else 400
+    n = 120 if tier == "quick" else 500
     cap = 400 if tier == "quick" else 7200
     return engine.run_check(PROP, "c18", tier, n, cap, "fault_enumeration", RULE, ASSUMPTIONS)
